@@ -855,6 +855,9 @@ impl Value {
                 if size != 12 {
                     return Err(Details::GetDurationFixedBytes(size).into());
                 }
+                if bytes.len() != 12 {
+                    return Err(Details::GetDurationFixedBytes(bytes.len()).into());
+                }
                 Value::Duration(Duration::from([
                     bytes[0], bytes[1], bytes[2], bytes[3], bytes[4], bytes[5], bytes[6], bytes[7],
                     bytes[8], bytes[9], bytes[10], bytes[11],
